@@ -91,6 +91,11 @@ def hex_cases(r):
             ops.append("unhex %s %d" % (hx(t), want))
             if len(t):
                 ops.append("unhex %s %d" % (hx(t[:-1]), want))       # odd number of digits
+        # exactly 2 * len hex characters and NO terminator behind them (a hex field inside a record): legal, nothing past
+        # the 2 * len characters may be read; also a prefix of a longer unterminated run
+        ops.append("unhexb %s %d" % (hx(t), n))
+        if n:
+            ops.append("unhexb %s %d" % (hx(t), r.range(0, n - 1)))
         for p in range(len(t)):
             for c in (0x00, 0x67, 0x2f, 0x3a, 0x40, 0x47, 0x60, r.range(0x80, 0xff)):
                 u = bytearray(t)
